@@ -16,7 +16,8 @@ from . import _wpa
 
 ID = "C04"
 THEOREMS = ["C04_inv_init", "C04_inv_step", "C04_inv_reachable", "C04_to_move_alternates", "C04_wf_reachable",
-            "C04_from_squares_reserves"]
+            "C04_from_squares_reserves",
+            "C04_source_inv_step"]
 MODEL_TARGETS = ["model/Tak.vo", "model/Run.vo", "model/Harness.vo", "model/Lit.vo"]
 TRUSTED_BASE = [
     "the Python auditor of Inv in harness/props/_wpa.py (audit_inv) restates the invariant on implementation objects",
@@ -352,3 +353,9 @@ def replay(run, rp):
     return {"violates": bool(bad or failing or shard_fail or crashed), "inconsistent_positions": bad[:5],
             "trace_agrees_with_model": not failing, "stopped": note,
             "final": takio.j_pos(ps[-1]), "model_view": cs.model_view(cs.terms[0]) if failing else None}
+
+
+def pregen(run):
+    """regenerate gen/GameGen.v (the shallow embedding of game.py/moves.py/pieces.py) from the tree under test"""
+    from . import c01gen
+    return c01gen.pregen(run)
